@@ -27,3 +27,14 @@ Theorem get_sites_are_the_modelled_ones :
   List.length (filter (fun e => String.eqb (get_file e) "node.go") pool_gets) = 6%nat /\
   List.length (filter (fun e => negb (String.eqb (get_file e) "node.go")) pool_gets) = 12%nat.
 Proof. vm_compute. split; reflexivity. Qed.
+
+(* pool.go: what a Get hands out when the pool has nothing to recycle.  The model's `get Fresh k` is the zero
+   node of kind k (Model/Pool.xzero): the k-th element of the literal initialising nodePools must be exactly
+   {New: func() any { return new(nodeK) }} with nodeK the struct of the k-th node kind (the order of the
+   nodeKind constants, which Model/Pool.kind_name spells), and pool.go declares no other package-level
+   variable (a free list, a chunk to carve nodes from, a counter would be shared unsynchronised state). *)
+From GoArt Require Model.Pool.
+Theorem pool_new_is_the_zero_node :
+  pool_news = map (fun k => (Pool.kind_name k, true)) [Pool.K4; Pool.K16; Pool.K48; Pool.K256] /\
+  pool_go_package_vars = 1%N.
+Proof. vm_compute. split; reflexivity. Qed.
